@@ -1,7 +1,21 @@
-(* C08 -- results do not depend on message timing.  Ticker level: for deterministic
-   components the dispatch (kind and changes) of every component of a tick is the same under
-   every order in which the components answer.  Property theorems only. *)
-From TV Require Import Base Model.Wiring Model.Ticker Proofs.WiringP Proofs.TickerP.
+(* C08 -- results do not depend on message timing.
+   (1) Ticker level: for deterministic components the dispatch (kind and changes) of every
+       component of a tick is the same under every order in which the components answer
+       ([C08_ticker_confluent], [C08_same_participants]).
+   (2) Whole flat simulations ([C08_whole_simulation]): the master picks the earliest pending
+       wakeups, every tick is ANY complete run of the ticker (components answer in any order the
+       gate admits), every component answers what its DeviceComponent computes from its state,
+       interrupts are applied between ticks.  Two such runs of the same script -- whatever the
+       answer orders, tick after tick -- give every device the same sequence of (time, inputs),
+       callbacks and interrupts included, and leave equivalent component states and wakeup tables.
+       Schedules exist: [run_sched] executes any strategy, and the first-answers-first and
+       last-answers-first strategies really produce different traces ([C08_schedules_example]).
+   PARTIAL: (2) is for one scheduler level (flat simulations) and at the granularity of the
+   ticker's answers; system simulations and the bus below (per-topic queues, latency) are explored
+   on the delaying bus (codes 21/22); Model/NSim.v is compared with Model/Sim.v on every flat case
+   of that exploration (code 23).  Property theorems only. *)
+From TV Require Import Base Model.Wiring Model.Ticker Model.Component Model.Sim Model.NSim Oracle.SimCheck
+  Proofs.WiringP Proofs.TickerP Proofs.SimP Proofs.EqvP Proofs.InlineP Proofs.InlineScopeP Proofs.ScheduleP.
 
 (* two arbitrary runs of the same tick (same wiring, time, roots), possibly incomplete and
    under different answer orders, whose answers are given by one deterministic function of
@@ -39,6 +53,57 @@ Proof.
   - apply (run_finished conns comps t roots _ st2 tr2 R2 E2). apply (i_disp_ext _ _ _ _ _ _ I1). exact H.
   - apply (run_finished conns comps t roots _ st1 tr1 R1 E1). apply (i_disp_ext _ _ _ _ _ _ I2). exact H.
 Qed.
+
+(* (2) whole simulations: any two schedules *)
+Theorem C08_whole_simulation : forall conns comps (devf : devfun) (rank : comp -> nat),
+  single_source conns ->
+  (forall k, In k conns -> (rank (out_comp k) < rank (in_comp k))%nat) ->
+  (forall c n t i, NoDup (keys (fst (devf c n t i)))) ->
+  (forall c n t i i', NoDup (keys i) -> NoDup (keys i') -> eqv i i' -> devf c n t i = devf c n t i') ->
+  forall initial script sA obA sB obB,
+    nrun conns comps devf initial script sA obA -> nrun conns comps devf initial script sB obB ->
+    (forall d, obs_rel (dev_obs d obA) (dev_obs d obB)) /\ SREL sA sB.
+Proof.
+  intros conns comps devf rank Hss Hrank Hnd Hext initial script sA obA sB obB HA HB.
+  destruct (nrun_deterministic conns comps devf Hnd Hext Hss rank Hrank initial script sA obA sB obB HA HB) as [H1 H2].
+  split; assumption.
+Qed.
+
+(* the table-driven devices of the harness are such devices *)
+Theorem C08_whole_simulation_table : forall conns comps tab (rank : comp -> nat),
+  single_source conns ->
+  (forall k, In k conns -> (rank (out_comp k) < rank (in_comp k))%nat) ->
+  forall initial script sA obA sB obB,
+    nrun conns comps (table_dev tab) initial script sA obA -> nrun conns comps (table_dev tab) initial script sB obB ->
+    forall d, obs_rel (dev_obs d obA) (dev_obs d obB).
+Proof.
+  intros conns comps tab rank Hss Hrank initial script sA obA sB obB HA HB.
+  apply (C08_whole_simulation conns comps (table_dev tab) rank Hss Hrank (table_dev_nd tab) (table_dev_ext tab) initial script sA obA sB obB HA HB).
+Qed.
+
+(* every strategy that answers dispatched components one at a time yields such a run *)
+Theorem C08_strategies_are_schedules : forall conns comps devf pick fuel initial script s ob,
+  nrun_from_start conns comps devf pick fuel initial script = Some (s, ob) -> nrun conns comps devf initial script s ob.
+Proof. intros. eapply nrun_from_start_sound. eassumption. Qed.
+
+(* two different schedules of one simulation: 3 -> 4 -> 6, 3 -> 5 -> 7, callbacks on 3 and 5, an
+   interrupt of 4; the global order of updates differs (6 before 7 / 7 before 6), 23 updates each *)
+Definition ex_conns : list conn := [(3, 1, 4, 1); (4, 1, 6, 1); (3, 1, 5, 1); (5, 1, 7, 1)]%positive.
+Definition ex_comps : list comp := [3; 4; 5; 6; 7]%positive.
+Definition ex_tab : dev_table :=
+  [(3%positive, (11, 300, 1)); (4%positive, (12, 700, 0)); (5%positive, (13, 500, 4)); (6%positive, (14, 400, 0)); (7%positive, (15, 400, 0))].
+Definition ex_script := [ITick; ITick; IStim 4%positive 650; ITick; ITick; ITick; ITick].
+
+Example C08_schedules_example :
+  match nrun_from_start ex_conns ex_comps (table_dev ex_tab) pick_first 50 0 ex_script,
+        nrun_from_start ex_conns ex_comps (table_dev ex_tab) pick_last 50 0 ex_script with
+  | Some (_, obA), Some (_, obB) =>
+      length obA = 23%nat /\ length obB = 23%nat /\
+      firstn 5 (map obs_comp obA) = [3; 4; 5; 6; 7]%positive /\ firstn 5 (map obs_comp obB) = [3; 4; 5; 7; 6]%positive /\
+      In (4%positive, 650) (map fst obA)
+  | _, _ => False
+  end.
+Proof. vm_compute. repeat split; try reflexivity. do 15 right. left. reflexivity. Qed.
 
 Example C08_placeholder_nonvacuous : acyclic [(1, 1, 2, 1); (1, 1, 3, 1); (2, 1, 4, 1); (3, 1, 4, 2)]%positive.
 Proof.
